@@ -76,23 +76,49 @@ def _canon(name: str) -> str:
 
 
 def _callees(ctx: Ctx, fn: FuncInfo, other: FuncInfo) -> set[str]:
-    """Canonical names of the steps `fn` performs; a private helper that the sibling does not call is expanded one level."""
-    mine, impl = _direct(ctx, fn)
-    theirs = {_canon(n) for n in _direct(ctx, other)[0]}
-    out = set()
-    for n in mine:
-        if _canon(n) not in theirs and n in impl and _canon(n) != "RESOLVE":
-            out |= {_canon(x) for x in _direct(ctx, impl[n])[0]}
-        else:
-            out.add(_canon(n))
-    return out
+    """Canonical names of the steps `fn` performs, see `_steps`."""
+    return _steps(ctx, fn, other)[0]
+
+
+def _steps(ctx: Ctx, fa: FuncInfo, fb: FuncInfo) -> tuple[set[str], set[str]]:
+    """Canonical names of the steps the two siblings perform.  A private helper of the module that only one side calls is replaced
+    by the steps it performs itself, alternately on either side until nothing is left to expand: the twins may cut the same work
+    into helpers differently (one calls `_process_generation`, the other has that loop in its own body)."""
+    def direct(fn: FuncInfo) -> dict[str, FuncInfo | None]:
+        names, impl = _direct(ctx, fn)
+        out: dict[str, FuncInfo | None] = {}
+        for n in names:
+            c = _canon(n)
+            out[c] = impl.get(n) if c != "RESOLVE" and out.get(c) is None else out.get(c)
+        return out
+
+    A, B = direct(fa), direct(fb)
+    seen: set[str] = {fa.qualname, fb.qualname}
+    for _ in range(8):
+        changed = False
+        for mine, theirs in ((A, B), (B, A)):
+            only = [n for n, impl in mine.items() if n not in theirs and impl is not None and impl.qualname not in seen]
+            for n in only:
+                impl = mine.pop(n)
+                seen.add(impl.qualname)
+                for k, v in direct(impl).items():
+                    mine.setdefault(k, v)
+                changed = True
+        if not changed:
+            break
+    return set(A), set(B)
 
 
 def rule_mirror(ctx: Ctx) -> None:
     P = ctx.prog
+    P.func(f"{RUN}.{PAIRS[0][0]}"), P.func(f"{RUN}.{PAIRS[0][1]}")  # the outermost pair is the anchor
     for a, b in PAIRS:
+        if f"{RUN}.{a}" not in P.functions or f"{RUN}.{b}" not in P.functions:
+            # an inner twin was merged into its caller: its steps are compared through the expansion of the enclosing pair
+            ctx.add("1-mirror", P.func(f"{RUN}.{PAIRS[0][1]}"), P.func(f"{RUN}.{PAIRS[0][1]}").node, True, f"({a}, {b}) is not a pair of functions on this tree; covered by the enclosing pair", key=f"mirror {a}")
+            continue
         fa, fb = P.func(f"{RUN}.{a}"), P.func(f"{RUN}.{b}")
-        sa, sb = _callees(ctx, fa, fb), _callees(ctx, fb, fa)
+        sa, sb = _steps(ctx, fa, fb)
         diff = sa ^ sb
         ctx.add("1-mirror", fb, fb.node, not diff, f"{b} uses the same steps as {a} ({len(sa)} callees)" if not diff else f"{b} and {a} do not perform the same steps: {sorted(diff)} on one side only", key=f"mirror {a}")
         ok = isinstance(fb.node, ast.AsyncFunctionDef) and not isinstance(fa.node, ast.AsyncFunctionDef)
